@@ -14,7 +14,8 @@ import (
 //	C17_WRITE_CORPUS=/verif/corpus/C17 go test ./c17 -run TestC17WriteCorpus
 //
 // (grammar-generated samples per syntax plus a few hand-written ones covering the BOM,
-// heredocs, directives, the fork's \xHH escape and all comment styles).
+// heredocs, directives, the fork's \xHH escape and all comment styles, and the white
+// space zoo: wszoo-hand-*, wszoo-gen-*).
 func TestC17WriteCorpus(t *testing.T) {
 	dir := os.Getenv("C17_WRITE_CORPUS")
 	if dir == "" {
@@ -67,6 +68,31 @@ func TestC17WriteCorpus(t *testing.T) {
 		}
 		for i, s := range hand[kind] {
 			os.WriteFile(filepath.Join(d, fmt.Sprintf("hand-%02d", i)), []byte(s), 0o644)
+		}
+		// the white space zoo (wszoo_test.go): hand-written inputs with form feed, vertical tab,
+		// lone CR, NEL, NBSP, U+1680, U+2003, U+2028/9, U+3000, U+FEFF, U+200B at blank-tolerating
+		// positions (around `=`, braces, heredoc opening and closing markers, inside ${ } / %{ },
+		// between arguments), plus generated samples of the gen:wszoo class
+		for i, s := range zooHand[kind] {
+			os.WriteFile(filepath.Join(d, fmt.Sprintf("wszoo-hand-%02d", i)), []byte(s), 0o644)
+		}
+		type zs struct {
+			b []byte
+			l []string
+		}
+		zg := rapid.Custom(func(rt *rapid.T) zs { b, l := genZoo(rt, k); return zs{b, l} })
+		nz := 0
+		for i := 0; nz < 30 && i < 2000; i++ {
+			z := zg.Example(i)
+			placed := false
+			for _, l := range z.l {
+				placed = placed || l == "ws:zoo"
+			}
+			if !placed || len(z.b) < 4 || len(z.b) > 400 {
+				continue
+			}
+			os.WriteFile(filepath.Join(d, fmt.Sprintf("wszoo-gen-%02d", nz)), z.b, 0o644)
+			nz++
 		}
 	}
 }
